@@ -93,9 +93,18 @@ func startPool(t interface{ Fatalf(string, ...interface{}) }, extra ...string) *
 // by asking the kernel for a free one, which can collide with a parallel test process doing the same: a pool that
 // exits right away (bind error) is started again on another port.
 func startPoolOn(t interface{ Fatalf(string, ...interface{}) }, host string, extra ...string) *poolProc {
+	p, err := tryStartPool(host, extra...)
+	if err != nil {
+		t.Fatalf("[setup failed] %v", err)
+	}
+	return p
+}
+
+// tryStartPool is startPoolOn returning the failure (for checks in which "the pool does not start" is a finding).
+func tryStartPool(host string, extra ...string) (*poolProc, error) {
 	bin, err := vipnodeBinary()
 	if err != nil {
-		t.Fatalf("%v", err)
+		return nil, err
 	}
 	var last *poolProc
 	for attempt := 0; attempt < 6; attempt++ {
@@ -106,7 +115,7 @@ func startPoolOn(t interface{ Fatalf(string, ...interface{}) }, host string, ext
 		p.cmd.Env = append(os.Environ(), "HOME="+os.TempDir())
 		pipe, _ := p.cmd.StderrPipe()
 		if err := p.cmd.Start(); err != nil {
-			t.Fatalf("[setup failed] start pool: %v", err)
+			return nil, fmt.Errorf("start pool: %v", err)
 		}
 		scanned := make(chan struct{})
 		go func() {
@@ -146,13 +155,12 @@ func startPoolOn(t interface{ Fatalf(string, ...interface{}) }, host string, ext
 			select {
 			case <-p.exited:
 			case <-time.After(40 * time.Millisecond):
-				return p
+				return p, nil
 			}
 		}
 		p.stop()
 	}
-	t.Fatalf("[setup failed] pool binary did not start listening (last attempt on %s); stderr: %v", last.addr, last.log())
-	return nil
+	return nil, fmt.Errorf("pool binary did not start listening (last attempt on %s); stderr: %v", last.addr, last.log())
 }
 
 func (p *poolProc) log() string {
